@@ -5,7 +5,7 @@ from .algorithm_genetic import GeneticAlgorithm
 from .operators import RandomGenerator, PmMutator, ParetoDominance, EpsilonDominance, crowding_distance, \
     NonUniformMutation, UniformMutator, CopySelector, SimulatedBinaryCrossover, TournamentSelector
 from .archive import Archive
-from copy import copy
+from copy import copy, deepcopy
 import time
 
 
@@ -685,8 +685,8 @@ class PSOGA(SwarmAlgorithm):
             # ToDo: Make it clean
             offspring1 = IndividualSwarm(vector1)
             offspring2 = IndividualSwarm(vector2)
-            offspring1.features = first_selected.features
-            offspring2.features = second_selected.features
+            offspring1.features = deepcopy(first_selected.features)
+            offspring2.features = deepcopy(second_selected.features)
             offsprings.append(offspring1)
             offsprings.append(offspring2)
 
